@@ -958,6 +958,13 @@ def enc4(cfg):
 def _strip_loop(f, pdid):
     """find: loop whose condition compares a local `sz` with a constant; body: if (text[sz - 1] != pad) break; decrement sz"""
     loops = [(b, blk) for b, blk in f.blocks.items() if blk.get('term') in ('ForStmt', 'WhileStmt') and blk.get('cond') is not None]
+    if len(loops) == 0:
+        # stripping EVERY trailing pad byte takes an unbounded number of steps: without a loop (and without a library search
+        # such as find_last_not_of / find_if over a reverse range) at most a fixed number of pad bytes can be removed
+        lib = [e for b_, i_, e in f.elements() if e.get('k') == 'call' and e.get('name') in ('find_last_not_of', 'find_if', 'find_if_not', 'find', 'mismatch', 'search') and not is_assert_elem(e)]
+        if lib:
+            return None, 'the padding is stripped through a library search (%s): shape not recognised' % lib[0].get('name')
+        return False, 'there is no loop: at most a fixed number of trailing pad bytes is removed, so texts that differ only in the amount of trailing padding ("ab" vs "ab" followed by two zero bytes) keep different lengths and encode to different keys - values that are equal after normalisation no longer collide onto one key'
     if len(loops) != 1:
         return None, 'expected exactly one loop, found %d' % len(loops)
     b, blk = loops[0]
@@ -1330,4 +1337,35 @@ def enc7(cfg, classes=None):
         res.floor('buffer accessors', 1)
         res.floor('span appends', 1)
     res.floor('byte appends', 2)
+    return res
+
+
+def enc8(cfg, classes=None):
+    """ENC-8: the fluent interface returns the object itself"""
+    res = RuleResult('ENC-8', 'every encode / decode / encode_text / reset member of key_encoder and key_decoder returns a REFERENCE to the object it was called on (return type `T &`, every return statement `*this`): the documented use is chaining, and a member that returns a copy makes the rest of the chain advance a temporary - the object itself stays behind, the next component is read from / written at a stale offset')
+    n = 0
+    for f in cfg.functions:
+        if not f.blocks or f.cls not in (classes or (ENCODER, DECODER)) or f.short not in ('encode', 'decode', 'encode_text', 'reset', 'append_bytes', 'decode_text'):
+            continue
+        ret = (f.ret or '').strip()
+        if ret in ('void', ''):
+            continue
+        n += 1
+        res.functions.add(f.sig)
+        by_ref = ret.replace('const ', '') == f.cls + ' &'
+        rets = [e for b, i, e in f.elements() if e.get('k') == 'return' and e.get('e') is not None]
+        star_this = bool(rets)
+        for e in rets:
+            x = f.strip_casts(e['e'])
+            while isinstance(x, dict) and x.get('k') == 'call' and x.get('ck') == 'ctor' and (x.get('copy') or x.get('move')) and x.get('args'):
+                x = f.strip_casts(x['args'][0])
+            ok_ = isinstance(x, dict) and ((x.get('k') == 'unop' and x.get('op') == '*' and isinstance(f.strip_casts(x['sub']), dict) and f.strip_casts(x['sub']).get('k') == 'this') or (x.get('k') == 'call' and x.get('cls') == f.cls and x.get('obj') is not None and isinstance(f.strip_casts(x['obj']), dict) and f.strip_casts(x['obj']).get('k') == 'this' and (x.get('t') or '').replace('const ', '') in (f.cls, f.cls + ' &')))
+            if not ok_:
+                star_this = False
+        ok = by_ref and star_this
+        res.ob(ok, {'rule': 'ENC-8', 'function': sh(f.sig)[:100], 'returns': sh(ret)[:60], 'verdict': 'discharged' if ok else 'VIOLATION'})
+        if not ok:
+            res.find(f, f.loc, '%s::%s returns `%s`%s: a chained call continues on a temporary copy, the %s itself does not advance - the next component is decoded from / encoded at a stale offset (a round trip through a chained decode no longer yields the encoded components)' % (f.cls.split('::')[-1], f.short, sh(ret)[:60], '' if star_this else ' and not *this', 'decoder' if f.cls == DECODER else 'encoder'), key='ENC-8:%s:%s' % (f.cls.split('::')[-1], sh(f.sig).split('(')[-1][:30]), config=cfg.name)
+    res.count('fluent members', n)
+    res.floor('fluent members', 20 if classes is None else 9)
     return res
